@@ -445,6 +445,7 @@ func c11Execute(c *core.Ctx, sc *C11Scenario, sh gen.Shape, data, pre gen.Data, 
 		}
 	}
 	o := &c11Output{bytes: sink.Bytes(), meta: map[int]map[chunkMeta]bool{}}
+	nonNull := map[[2]int]int{}
 	o.copied = parquet.VerifCopyPathCount() - c0
 	o.reenc = parquet.VerifReencodePathCount() - r0
 
@@ -473,6 +474,11 @@ func c11Execute(c *core.Ctx, sc *C11Scenario, sh gen.Shape, data, pre gen.Data, 
 		}
 		// bloom filters: no false negative
 		for ci, cc := range rg.ColumnChunks() {
+			for _, val := range columnValues(rows, ci) {
+				if !val.IsNull() {
+					nonNull[[2]int{gi, ci}]++
+				}
+			}
 			if bf := cc.BloomFilter(); bf != nil {
 				for _, val := range columnValues(rows, ci) {
 					if val.IsNull() {
@@ -510,7 +516,10 @@ func c11Execute(c *core.Ctx, sc *C11Scenario, sh gen.Shape, data, pre gen.Data, 
 		}
 		for ci, col := range rg.Columns {
 			m := col.MetaData
-			if m.NumValues == 0 {
+			if m.NumValues == 0 || nonNull[[2]int{gi, ci}] == 0 {
+				// a chunk without a single value says nothing about the options: a
+				// dictionary column holding only nulls gets no bloom filter from either
+				// path, and the two paths cut row groups at different rows
 				continue
 			}
 			encs := map[string]bool{}
